@@ -20,10 +20,12 @@ def sortable (t : Table V) (d : Int) : Bool := (valueOf t d).isSome
 def keyLe (t : Table V) (rev : Bool) (a b : Int) : Prop :=
   ∀ va vb, valueOf t a = some va → valueOf t b = some vb → if rev then vb ≤ va else va ≤ vb
 
-def keyLeB (t : Table V) (rev : Bool) (a b : Int) : Bool :=
-  match valueOf t a, valueOf t b with
-  | some va, some vb => if rev then decide (vb ≤ va) else decide (va ≤ vb)
+/-- value order on optional values (only ever used on present values) -/
+def optLe (rev : Bool) : Option V → Option V → Bool
+  | some x, some y => if rev then decide (y ≤ x) else decide (x ≤ y)
   | _, _ => true
+
+def keyLeB (t : Table V) (rev : Bool) (a b : Int) : Bool := optLe rev (valueOf t a) (valueOf t b)
 
 /-- the requested ids the index can sort, in the order they were given -/
 def sortables (t : Table V) (docids : List Int) : List Int := docids.filter (sortable t)
@@ -37,9 +39,14 @@ def cut (limit : Option Nat) (n : Nat) : Nat :=
   | none => n
   | some l => min l n
 
-/-- the stable answer: sortable ids ordered by value, equal values in input order -/
+/-- the stable answer: sortable ids ordered by value, equal values in input order (each id paired
+with its value, stable insertion sort on the values, values dropped again) -/
 def stableSort (t : Table V) (rev : Bool) (docids : List Int) : List Int :=
-  isort (keyLeB t rev) (sortables t docids)
+  (isort (fun (x y : Option V × Int) => optLe rev x.1 y.1)
+    ((sortables t docids).map (fun d => (valueOf t d, d)))).map Prod.snd
+
+/-- does the index have a value for any document? -/
+def nonEmptyIndex (t : Table V) : Bool := t.any (fun p => p.2.isSome)
 
 /-- **The property, ids part.**  `out` is an acceptable answer to "sort `docids`, cut at `limit`". -/
 structure SortOK (t : Table V) (docids : List Int) (rev : Bool) (limit : Option Nat)
